@@ -664,7 +664,10 @@ fn label(w: &mut World, l: &'static str) {
 fn std_opts(w: &mut World, cancellable: bool) -> ExecOpts {
     if w.twin_mode {
         // twin scenarios: no program-tape draws during execution
-        return ExecOpts { cancellable: cancellable && !w.no_cancel, idle_cancel: true, budget_us: None, timer_is_idle: false };
+        // (in one FragTwin variant the application's requests have a timeout, like its polls:
+        // never a QoS 0 publish - `cancellable` is false for it)
+        let budget = (cancellable && w.cfg.twin_request_budget && w.cfg.twin_poll_budget_us > 0).then_some(w.cfg.twin_poll_budget_us);
+        return ExecOpts { cancellable: cancellable && !w.no_cancel, idle_cancel: true, budget_us: budget, timer_is_idle: false };
     }
     let budget = if w.benign {
         None
@@ -828,6 +831,24 @@ fn check_result(w: &mut World, op: &'static str, res: &Res, was_live: bool, io_e
                             outstanding
                         ),
                     );
+                }
+                // "a PINGRESP received in time never leads to a disconnect": the answer had been
+                // readable since before the bound, the operation was already running then (or
+                // started before the bound with the answer waiting), and it was never read
+                if was_live && ping_timeout && !eof_read && !bdc {
+                    let bound = outstanding.unwrap() + 5 * US_PER_S;
+                    if let Some(ta) = w.conns[cur].pingresp_available_t {
+                        // (C10 speaks of a transport that accepts writes: a client stuck in a slow
+                        // write since before the answer came cannot read it)
+                        let writes_accepted = w.conns[cur].last_slow_write_until < ta;
+                        if writes_accepted && ta >= outstanding.unwrap() && ta.max(w.op_start_t) + 2 * US_PER_MS < bound && matches!(op, "poll" | "recv" | "drive") {
+                            w.violate(
+                                "C10",
+                                format!("disconnected-although-pingresp-arrived-in-time/op={op}"),
+                                format!("{op} (running since t={}) returned Disconnected at t={}; the PINGRESP for the PINGREQ of t={} has been readable since t={}, before the bound t={bound}", w.op_start_t, clock::now(), outstanding.unwrap(), ta),
+                            );
+                        }
+                    }
                 }
                 if was_live && ping_timeout && !eof_read {
                     w.probe("keepalive_timeout_disconnect");
